@@ -96,6 +96,33 @@ theorem node_selection_by_name (m m' : CBG) (hn : m.genes.Nodup) (hn' : m'.genes
     m'.selectData sel = m.selectData sel :=
   selectData_relabelled m m' hn hn' hrowlen hrel hsub sel hsel
 
+/-- what a node sees (`downsample_genes(query_markers)` of the prepared chunk)
+inherits both invariances -/
+theorem node_data_gene_perm_raw (f : Rat → Rat) (data data' : List (List Rat)) (width : Nat)
+    (genes genes' allM nodeM : List Gene) (hw : genes.length = width) (hw' : genes'.length = width)
+    (hn : genes.Nodup) (hn' : genes'.Nodup)
+    (hrowlen : ∀ row ∈ data, row.length = width) (hrowlen' : ∀ row ∈ data', row.length = width)
+    (hlen : data.length = data'.length)
+    (hperm : ∀ p ∈ data.zip data', (genes'.zip p.2).Perm (genes.zip p.1))
+    (hsub : ∀ g ∈ genes, g ∈ genes') (hsel : ∀ g ∈ allM, g ∈ genes) :
+    nodeData f data' width genes' .raw allM nodeM = nodeData f data width genes .raw allM nodeM := by
+  unfold nodeData
+  rw [gene_perm_raw f data data' width genes genes' allM hw hw' hn hn' hrowlen hrowlen' hlen hperm hsub hsel]
+
+theorem node_data_gene_perm_extra_normalised (f : Rat → Rat) (data data' : List (List Rat))
+    (width width' : Nat) (genes genes' allM nodeM : List Gene) (hw : genes.length = width)
+    (hw' : genes'.length = width') (hn : genes.Nodup) (hn' : genes'.Nodup)
+    (hrowlen : ∀ row ∈ data, genes.length ≤ row.length)
+    (hrel : ColumnsRelabelled { data := data, genes := genes, norm := .log2CPM }
+                              { data := data', genes := genes', norm := .log2CPM })
+    (hsub : ∀ g ∈ genes, g ∈ genes') (hsel : ∀ g ∈ allM, g ∈ genes) :
+    nodeData f data' width' genes' .log2CPM allM nodeM =
+      nodeData f data width genes .log2CPM allM nodeM := by
+  unfold nodeData
+  rw [gene_perm_extra_normalised f data data' width width' genes genes' allM hw hw' hn hn' hrowlen hrel
+    hsub hsel]
+
+
 /-! ## declared normalisation; normalise before down-selecting -/
 
 /-- "Declaring raw counts and letting the mapper normalise them gives the same
